@@ -4,6 +4,7 @@ import (
 	"bytes"
 	"encoding/json"
 	"fmt"
+	"net"
 	"strings"
 	"testing"
 	"time"
@@ -84,7 +85,32 @@ type splitCodec struct{ enc, dec b2f.Codec }
 func (c splitCodec) Compress(raw []byte) []byte          { return c.enc.Compress(raw) }
 func (c splitCodec) Decompress(s []byte) ([]byte, error) { return c.dec.Decompress(s) }
 
+type peerOpts struct {
+	hostile []HostileMsg
+	// remote, when set, replaces the reference peer on the B end.
+	remote func(c *pipe.End)
+	// afterRemote > 0: wait for the remote to finish first, then give Exchange
+	// this much simulated time to return (C03's "once the input ends").
+	afterRemote time.Duration
+	// tapSent sees the remote's bytes as written (before in-flight edits).
+	tapSent func([]byte)
+	// tapSeen sees the remote's bytes as delivered to the Session (after edits).
+	tapSeen func([]byte)
+}
+
 func runPeerSession(sim *core.Sim, pp PeerPlan) *peerRun {
+	return runPeerSessionWith(sim, pp, peerOpts{})
+}
+
+func runPeerSessionOpts(sim *core.Sim, pp PeerPlan, hostile []HostileMsg, after time.Duration) *peerRun {
+	return runPeerSessionWith(sim, pp, peerOpts{hostile: hostile, afterRemote: after})
+}
+
+func runPeerSessionCustom(sim *core.Sim, pp PeerPlan, after time.Duration, remote func(c *pipe.End)) *peerRun {
+	return runPeerSessionWith(sim, pp, peerOpts{remote: remote, afterRemote: after})
+}
+
+func runPeerSessionWith(sim *core.Sim, pp PeerPlan, opts peerOpts) *peerRun {
 	hist := mbox.NewHistory(sim)
 	lib := newStation("L", pp.Lib, hist)
 	lib.h.NextSession()
@@ -117,11 +143,18 @@ func runPeerSession(sim *core.Sim, pp PeerPlan) *peerRun {
 		pr.peerMIDs = append(pr.peerMIDs, d.MID)
 		cfg.Out = append(cfg.Out, b2f.OutMsg{MID: d.MID, Title: asciiTitle(d.Subject), Raw: raw, From: d.From})
 	}
+	for _, h := range opts.hostile {
+		om := b2f.OutMsg{MID: h.MID, Title: orStr(h.Title, "t"), Raw: h.Raw, Stream: h.Stream}
+		if om.Stream == nil && om.Raw == nil {
+			om.Raw = []byte{}
+		}
+		// hostile messages go first so that they are reached before anything else fails
+		cfg.Out = append([]b2f.OutMsg{om}, cfg.Out...)
+	}
 	cfg.Log = func(s string) { sim.Logf("peer %s", s) }
 
 	link := pipe.New(sim, pp.Link)
-	link.Tap(nil, func(p []byte) { pr.wire = append(pr.wire, p...) }) // B->A is unused; A=lib writes ab
-	link.Tap(func(p []byte) { pr.wire = append(pr.wire, p...) }, nil)
+	link.Tap(func(p []byte) { pr.wire = append(pr.wire, p...) }, opts.tapSeen) // A = library end
 
 	s := lib.session(&stationRT{plan: StationPlan{Call: cfg.MyCall}}, pp.LibMaster)
 	for _, a := range pp.Aux {
@@ -141,8 +174,22 @@ func runPeerSession(sim *core.Sim, pp PeerPlan) *peerRun {
 		})
 	}
 	gl := lib.exchange(sim, s, pipe.WithCaps(link.A, pp.Link.CapsA), link.A, pr.res)
-	gp := core.Go(func() { pr.peer = b2f.Run(link.B, cfg) })
-	pr.finished = core.WaitAll(sessionBudget, gl, gp)
+	gp := core.Go(func() {
+		if opts.remote != nil {
+			opts.remote(link.B)
+			return
+		}
+		var c net.Conn = link.B
+		if opts.tapSent != nil {
+			c = tapConn{link.B, opts.tapSent}
+		}
+		pr.peer = b2f.Run(c, cfg)
+	})
+	if opts.afterRemote > 0 {
+		pr.finished = core.WaitAll(sessionBudget, gp) && core.WaitAll(opts.afterRemote, gl)
+	} else {
+		pr.finished = core.WaitAll(sessionBudget, gl, gp)
+	}
 	if !pr.finished {
 		link.Kill()
 		link.A.Close()
@@ -359,7 +406,7 @@ func genC05(tier string, r *core.Rand) PeerPlan {
 		p.DataBlocks = core.Tape(r, r.Range(1, 4), func() int { return r.Range(1, 8) })
 	}
 	p.Answers = map[string]string{}
-	style := r.Intn(3) // symbols, letters, mixed
+	style := r.Intn(3)       // symbols, letters, mixed
 	allowH := r.Chance(0.08) // the H form is a known finding: keep it to a small share of the plans
 	for _, m := range pp.Lib.Msgs {
 		cls := byte('+')
@@ -425,4 +472,18 @@ func execC05(t *testing.T, prop string, raw json.RawMessage, trace bool) core.Ou
 		out.Violate(prop, "harness", "goroutines-left-blocked", "goroutines were still blocked when the run ended")
 	}
 	return out
+}
+
+// tapConn reports every successful Write to a tap (the stream as sent).
+type tapConn struct {
+	*pipe.End
+	tap func([]byte)
+}
+
+func (c tapConn) Write(p []byte) (int, error) {
+	n, err := c.End.Write(p)
+	if n > 0 {
+		c.tap(p[:n])
+	}
+	return n, err
 }
